@@ -308,3 +308,122 @@ func VH_grouping(size int) {
 		verifAssert("grouping-raises-no-signal", sig.Type == ControlFlowNone)
 	}
 }
+
+// VH_relExpr (C16): an operand written as a literal behaves like the same value arriving from
+// any other expression. Each node kind is evaluated twice on the same operand values: once
+// with every operand a probe call (an arbitrary computed expression), once with a subset of
+// the operands replaced by literal nodes carrying what the lexer stores for that value.
+func VH_relExpr(which int, size int, nforms int) {
+	vpReset(1, 0, false)
+	stOnline = false
+	// operand values: nil, booleans, numbers, strings of `size` code points
+	nops := 2
+	if which == 1 || which == 3 || which == 4 {
+		nops = 1
+	}
+	var vals [2]interface{}
+	var isStr [2]bool
+	var txt [2][]rune
+	for k := 0; k < nops; k++ {
+		kind := verifNondetInt(0, 3)
+		var nilv interface{}
+		txt[k] = hvText(size)
+		vals[k] = verifSelect(kind, nilv, verifNondetBool(), verifNondetFloat(), string(txt[k]))
+		isStr[k] = kind == 3
+	}
+	ty := verifNondetInt(0, int(token.EOF))
+	op := tok(token.TokenType(ty), "op", 7)
+	arr := []interface{}{10.0, 20.0, 30.0}
+	// the form each operand takes in the second run: 0 computed expression (probe call),
+	// 1 literal, 2 variable, 3 parenthesised literal, 4 parenthesised variable
+	var form [2]int
+	any := false
+	for k := 0; k < nops; k++ {
+		form[k] = verifChoice(nforms)
+		if form[k] != 0 {
+			any = true
+		}
+	}
+	if !any {
+		verifAssume(false)
+	}
+	lop := tok(token.LOGICAL_OR, "||", 7)
+	if which == 2 {
+		if verifChoice(2) == 1 {
+			lop = tok(token.LOGICAL_AND, "&&", 7)
+		}
+	}
+	var res [2]interface{}
+	var failed [2]bool
+	var out [2]string
+	for run := 0; run < 2; run++ {
+		vpN = 0
+		env := environment.NewEnvironment()
+		var e [2]ast.Expr
+		for k := 0; k < nops; k++ {
+			f := 0
+			if run == 1 {
+				f = form[k]
+			}
+			var lv interface{} = vals[k]
+			if isStr[k] {
+				lv = stringLiteralValue(txt[k])
+			}
+			name := "v0"
+			if k == 1 {
+				name = "v1"
+			}
+			env.Define(name, vals[k])
+			switch f {
+			case 0:
+				pe := vpNew(0, 0, 7)
+				vpVals[k][0] = vals[k]
+				vpCalls[k] = 0
+				e[k] = pe
+				vpN = k + 1
+			case 1:
+				e[k] = &ast.Literal{Value: lv, Line: 7}
+			case 2:
+				e[k] = ident(name, 7)
+			case 3:
+				e[k] = &ast.Grouping{Expression: &ast.Literal{Value: lv, Line: 7}, Line: 7}
+			default:
+				e[k] = &ast.Grouping{Expression: ident(name, 7), Line: 7}
+			}
+			vpN = k + 1
+		}
+		var node ast.Expr
+		switch which {
+		case 0:
+			verifAssume(isBinaryOp(op.Type))
+			node = &ast.Binary{Left: e[0], Operator: op, Right: e[1], Line: 7}
+		case 1:
+			node = &ast.Unary{Operator: op, Right: e[0], Line: 7}
+		case 2:
+			node = &ast.Logical{Left: e[0], Operator: lop, Right: e[1]}
+		case 3:
+			node = &ast.ArrayAccess{Array: lit(arr, 7), Index: e[0], Line: 7}
+		case 4:
+			node = &ast.IfStmt{Condition: e[0], ThenBranch: &ast.PrintStatement{Expression: lit("then", 7)}, ElseBranch: &ast.PrintStatement{Expression: lit("else", 7)}}
+		default:
+			node = &ast.PrintStatement{Expression: &ast.ArrayLiteral{Elements: []ast.Expr{e[0], e[1]}, Line: 7}}
+		}
+		utils.HadError, utils.HadRuntimeError = false, false
+		verifClearEvents()
+		in := NewInterpreter()
+		res[run], _ = in.eval(node, env, false)
+		failed[run] = utils.HadRuntimeError
+		for i := 0; i < verifNumEvents(); i++ {
+			if verifEventKind(i) == 1 {
+				out[run] = out[run] + verifEventText(i)
+			}
+		}
+	}
+	verifAssert("literal-operand-same-failure", failed[0] == failed[1])
+	if !failed[0] {
+		if !failed[1] {
+			verifAssert("literal-operand-same-result", sameOutcome(res[0], res[1]))
+			verifAssert("literal-operand-same-output", out[0] == out[1])
+		}
+	}
+}
